@@ -193,6 +193,8 @@ def build_arg(spec):
         return bool(spec["v"])
     if t == "bytes":
         return bytes.fromhex(spec["v"])
+    if t == "str":
+        return str(spec["v"])
     if t == "intlist":
         return [int(x) for x in spec["v"]]
     if t == "byteslist":
@@ -338,9 +340,20 @@ def do_sequence(v, steps):
     return {"first": first, "last": last, "decoded": decoded}
 
 
+def do_helper(module, cls, args, key):
+    """live helper class on boundary inputs: value of the projection, or the exception class"""
+    try:
+        obj = getattr(importlib.import_module(module), cls)(*[build_arg(a) for a in args])
+        x = getattr(obj, key[1:-2])() if key.endswith("()") else getattr(obj, key[1:])
+        return {"v": jval_proj(x)}
+    except Exception as e:  # noqa
+        return {"exc": type(e).__name__}
+
+
 def main():
     req = json.load(sys.stdin)
-    res = {"sequence": [do_sequence(*c) for c in req.get("sequence", [])],
+    res = {"helpers": [do_helper(*c) for c in req.get("helpers", [])],
+           "sequence": [do_sequence(*c) for c in req.get("sequence", [])],
            "wrapper": [do_wrapper(*c) for c in req.get("wrapper", [])],
            "factory": [do_factory(*c) for c in req.get("factory", [])],
            "parse": [do_parse(*c) for c in req.get("parse", [])]}
